@@ -190,6 +190,20 @@ func checkC13Item(c c13ItemCase) (ci caseInfo, err error) {
 	ci.label("item:%s", map[bool]string{true: "constructible", false: "beyond-limit"}[within])
 	var item ast.ItemNode
 	panicked, msg := try(func() { item = buildUniform(c.Kind, c.Count) })
+	if c.Kind == model.A {
+		// the same string through the other way an ASCII item comes into being: filling a variable
+		var viaFill ast.ItemNode
+		p2, _ := try(func() {
+			viaFill = ast.NewASCIINodeVariable("v", 0, -1).FillVariables(map[string]interface{}{"v": string(bytes.Repeat([]byte{'x'}, c.Count))})
+		})
+		if p2 != panicked {
+			return ci, fmt.Errorf("ASCII of %d characters: the factory %s it, filling a variable %s it", c.Count, map[bool]string{true: "refuses", false: "accepts"}[panicked], map[bool]string{true: "refuses", false: "accepts"}[p2])
+		}
+		if !p2 && !bytes.Equal(viaFill.ToBytes(), item.ToBytes()) {
+			return ci, fmt.Errorf("ASCII of %d characters: filled item encodes differently from the constructed one", c.Count)
+		}
+		ci.label("ascii-also-via-fill")
+	}
 	if !within {
 		if !panicked {
 			return ci, fmt.Errorf("%s with %d elements (%d bytes > 16,777,215) was constructed", c.Kind, c.Count, c.Count*w)
